@@ -70,7 +70,7 @@ func calcHeader(header *base.RtmpHeader, prevHeader *base.RtmpHeader, out []byte
 					fmt++
 				}
 			}
-			if header.TimestampAbs > maxTimestampInMessageHeader {
+			if header.TimestampAbs >= maxTimestampInMessageHeader {
 				// 将数据打包成rtmp chunk发送给vlc，时间戳超过3字节最大范围时，
 				// vlc认为fmt0和fmt3两种格式，都需要携带扩展时间戳字段，并且该时间戳字段必须使用绝对时间戳。
 				timestamp = header.TimestampAbs
@@ -105,7 +105,7 @@ func calcHeader(header *base.RtmpHeader, prevHeader *base.RtmpHeader, out []byte
 
 	// 设置timestamp msgLen msgTypeId msgStreamId
 	if fmt <= 2 {
-		if timestamp > maxTimestampInMessageHeader {
+		if timestamp >= maxTimestampInMessageHeader {
 			bele.BePutUint24(out[index:], maxTimestampInMessageHeader)
 		} else {
 			bele.BePutUint24(out[index:], timestamp)
@@ -126,7 +126,7 @@ func calcHeader(header *base.RtmpHeader, prevHeader *base.RtmpHeader, out []byte
 	}
 
 	// 设置扩展时间戳
-	if timestamp > maxTimestampInMessageHeader {
+	if timestamp >= maxTimestampInMessageHeader {
 		bele.BePutUint32(out[index:], timestamp)
 		index += 4
 	}
